@@ -201,7 +201,7 @@ def select__let_expression(self: XPathToken, context: ta.ContextType = None) \
 
     for k in range(0, len(self) - 1, 2):
         varname = cast(str, self[k][0].value)
-        value = self[k+1].evaluate(context)
+        value = self[k+1].evaluate(copy(context))  # keeps the focus for the next clauses
         context.variables[varname] = value
 
     yield from self[-1].select(context)
